@@ -119,6 +119,23 @@ func (e *Env) objConverter(recvT, name, fwd, back string) {
 			first = token.Pos(i + 1)
 		}
 	}
+	// the new object never leaves the function unregistered: every statement (of the flattened
+	// body) that contains `return out` comes after both registrations
+	early := ""
+	for i, st := range body {
+		ast.Inspect(st, func(n ast.Node) bool {
+			rs, ok := n.(*ast.ReturnStmt)
+			if !ok || len(rs.Results) == 0 {
+				return true
+			}
+			if isRoot(rs.Results[0], outObj) && outObj != nil && (token.Pos(i+1) < fwdPos || token.Pos(i+1) < backPos) {
+				early = e.Prog.Pos(rs.Pos())
+			}
+			return true
+		})
+	}
+	e.Run.Check("R-MAPS", name+": the new object is registered before it is returned", pos, early == "",
+		"`return out` at "+early+" comes before the stores into the two maps: an object that leaves through it is converted afresh every time it is met — identifiers that share an object on one side do not on the other, and the maps have no entry for it")
 	e.Run.Check("R-MAPS", name+": registered before converting what it refers to", pos, first == token.NoPos || (fwdPos.IsValid() && backPos.IsValid() && fwdPos < first && backPos < first),
 		"the object graph is cyclic (object → declaring node → identifier → object): the memo entry must exist before Decl/Data/Outer/Objects are converted, else the conversion does not terminate or duplicates objects")
 }
